@@ -18,10 +18,10 @@ func init() {
 }
 
 type verifNetPeer struct {
-	w      *verifWorld
-	taken  []int // per local conn: datagrams already moved to the wire
-	inbox  []verifWire
-	name   string
+	w     *verifWorld
+	taken []int // per local conn: datagrams already moved to the wire
+	inbox []verifWire
+	name  string
 }
 
 type verifWire struct {
